@@ -4,6 +4,21 @@
   non-vacuity examples. Model: Oryx/Model/RtmpPkt.lean = the packet layer of rtmp/rtmp.go after the
   repair of F20 (`fix: rtmp: a call packet decoded without a command object has none`).
 -/
+/-
+  Scope (what the statements do and do not carry):
+  * every clause of the property is proved in full for the model (no `_partial` theorem); `C03_holds`
+    collects them, `wire_dispatch` is the same over the bytes on the wire (C01's `write_read_one`).
+  * `wire_dispatch` assumes a marshalled packet shorter than 2^24 bytes (the 3-byte length field of the
+    chunk header; C01's domain) and reports the stream id as `uint32(streamID)`.
+  * `ExpectPacket`/`ExpectMessage` are modelled over the list of messages `ReadMessage` delivers (C01: the
+    messages written, in order); `reflect` assignability is equality of the concrete packet type.
+  * `objectCallPacket.CommandObject` is assumed allocated (a nil pointer panics in `Size()`; both
+    constructors allocate it and nothing resets it).
+  * the round-trip domain (`Packet.WF`) excludes exactly what the wire cannot carry: strings above 65535
+    bytes, a missing command object followed by further fields, a connect whose name / id are not
+    `connect` / 1.0 (its decoder rejects them), `EventData ≥ 256` of the 1-byte event, a non-zero
+    `ExtraData` of an event that does not carry it.
+-/
 import Oryx.Proofs.RtmpPktTxn
 namespace Oryx.Props.C03
 open Oryx Oryx.Res Oryx.Amf0 Oryx.Rtmp Oryx.RtmpPkt
@@ -103,6 +118,18 @@ theorem decode_never_panics (tbl : TxnTable) (m : Msg) : dispatch tbl m ≠ .pan
 
 /-- Nor does any packet's `UnmarshalBinary` on any byte string. -/
 theorem unmarshal_never_panics (k : Kind) (data : Bytes) : unmarshal k data ≠ .panic := unmarshal_ne_panic k data
+
+/-- The chunk reader's own decoding of control messages inside `ReadMessage` (C01's model of
+`onMessageArrivated`) is this model's `DecodeMessage`: the two models agree where they overlap. -/
+theorem reader_uses_same_decoder (c : Nat) (m : Msg) (tbl : TxnTable) :
+    onMessageArrived c m =
+      (if m.hdr.ty = 1 ∨ m.hdr.ty = 4 ∨ m.hdr.ty = 5 then
+         match (dispatchSt tbl m).1 with
+         | .ok (.setChunkSize v) => ok v
+         | .ok _ => ok c
+         | .err _ => err .generic
+         | .panic => .panic
+       else ok c) := onMessageArrived_eq_decode c m tbl
 
 /-- F20 (repaired): `publish`, transaction id 0, nothing else — `02 0007 "publish" 00 00…00`. The decoder
 now reports an error; before the repair the command object preset by `NewPublishPacket` made `Size()`
